@@ -100,11 +100,13 @@ class Rodgers2000(TemperatureProfile):
     def write(self, output):
         temperature = super().write(output)
 
-        cov_mat = self._covariance
-        if cov_mat is None:
-            cov_mat = self.gen_covariance()
-
-        temperature.write_array('covariance_matrix', cov_mat)
+        # Only a user supplied matrix is a constructor argument. A generated
+        # one follows the correlation length and must not be frozen on reload
+        if self._covariance is not None:
+            temperature.write_array('covariance_matrix', self._covariance)
+        else:
+            temperature.write_array('generated_covariance_matrix',
+                                    self.gen_covariance())
         temperature.write_array('temperature_layers', self._T_layers)
         temperature.write_scalar('correlation_length', self._tp_corr_length)
         return temperature
